@@ -87,7 +87,7 @@ def c08_record(loc: dict) -> Any:
     world = loc.pop("__world__")
     d = DELIVERY.get()
     beh = world.behaviour(d) if d is not None else {}
-    recv = {k: enc(v) for k, v in loc.items() if k not in ("ctx", "dep0", "k") and not k.startswith("__")}
+    recv = {k: enc(v) for k, v in loc.items() if k not in ("ctx", "k") and not k.startswith("__")}
     ctx = loc.get("ctx")
     world.rec("fn_enter", d, attempt=world.attempt_of.get(d), received=recv, k=loc.get("k"),
               seen=None if ctx is None else {"tid": ctx.message.task_id, "args": None, "labels": {}})
@@ -222,6 +222,8 @@ def gen(rs: int, tier: str, index: int) -> dict:
                 continue
             else:
                 kwargs[p["name"]] = v
+        if any(p["name"] == "dep0" for p in sig["params"]) and r.random() < 0.4:
+            kwargs["dep0"] = r.choice([7, "55", 0, "x"])      # the caller binds a value to a dependency parameter explicitly
         m["args"] = args
         m["kwargs"] = kwargs
         has_ctx = any(p["name"] == "ctx" for p in sig["params"])
@@ -324,8 +326,12 @@ def reference(script: dict, m: dict) -> Optional[Dict[str, Any]]:
     validate = script["config"].get("validate_params", True)
     out: Dict[str, Any] = {}
     annots = {p["name"]: p["annot"] for p in ts["sig"]["params"] if not p.get("dep")}
+    annots["dep0"] = "int"
     for name, p in sig.parameters.items():
-        if name in ("k", "ctx", "dep0"):
+        if name in ("k", "ctx"):
+            continue
+        if name == "dep0" and name not in ba.arguments:
+            out[name] = enc(77)          # resolved by the dependency
             continue
         if name in ba.arguments:
             v = json.loads(json.dumps(ba.arguments[name]))   # what survives the wire
@@ -376,7 +382,8 @@ def oracle(script: dict, run: Any) -> List[Violation]:
 def probes(script: dict, run: Any) -> Dict[str, int]:
     h = Hist(run)
     res = {"conversion_happened": 0, "unconvertible_left_unchanged": 0, "unannotated_before_annotated": 0, "redelivered": 0,
-           "model_or_dataclass_arg": 0, "validate_off": int(not script["config"].get("validate_params", True)), "keyword_only_param": 0}
+           "model_or_dataclass_arg": 0, "validate_off": int(not script["config"].get("validate_params", True)), "keyword_only_param": 0,
+           "explicit_value_for_dependency_param": int(any("dep0" in m["kwargs"] for m in script["messages"]))}
     for t in script["tasks"]:
         if "sig" not in t:
             continue
